@@ -43,6 +43,9 @@ MUTANTS = [  # (contract module, qualname, file, regex, replacement, expect)  ex
  ("contracts.c18", "IndependenceAssertion.__eq__", "pgmpy/independencies/Independencies.py", r"self.event2,\n            self.event1,\n            self.event3,\n        \) == other.get_assertion\(\)", "self.event2,\n            self.event1,\n            self.event2,\n        ) == other.get_assertion()", "break"),
  ("contracts.c18", "DAG.is_iequivalent.<locals>.v_structures", "pgmpy/base/DAG.py", r"                and not dag.has_edge\(parents\[1\], parents\[0\]\)\n", "", "break"),
  ("contracts.c18", "DAG.get_immoralities", "pgmpy/base/DAG.py", r"immoralities.add\(tuple\(sorted\(parents\)\)\)", "immoralities.add(tuple(parents))", "break"),
+ ("contracts.c15", "DynamicBayesianNetwork.add_edge", "pgmpy/models/DynamicBayesianNetwork.py", r"and nx.has_path\(self, end, start\)", "and nx.has_path(self, start, end)", "break"),
+ ("contracts.c15", "DynamicBayesianNetwork.add_edge", "pgmpy/models/DynamicBayesianNetwork.py", r"DynamicNode\(start\[0\], 1 - start\[1\]\), DynamicNode\(end\[0\], 1 - end\[1\]\)", "DynamicNode(end[0], 1 - end[1]), DynamicNode(start[0], 1 - start[1])", "break"),
+ ("contracts.c15", "DynamicBayesianNetwork.add_edge", "pgmpy/models/DynamicBayesianNetwork.py", r'        if start == end:\n            raise ValueError\("Self Loops are not allowed"\)\n        elif', '        if False:\n            raise ValueError("Self Loops are not allowed")\n        elif', "break"),
 ]
 
 
